@@ -358,6 +358,9 @@ def implop_module(idx, op, base, rhs_self, want_bin, want_assign, base_is_assign
         # another type (or was not carried over) stops applying at the call sites of the driver
         if generic == "where":
             ig, iw = "<G>", " where G: ::core::marker::Copy + Only<Self>, Self: ::core::marker::Sized"
+        elif generic == "group":
+            # `Self` only inside DELIMITED GROUPS (tuple, array, parenthesised, fn-pointer arguments) of the where-clause
+            ig, iw = "<G>", " where G: ::core::marker::Copy, (Self, u8): OnlyG, [Self; 1]: OnlyG, (Self): ::core::marker::Sized, fn(Self) -> [Self; 2]: ::core::marker::Copy"
         elif generic == "nested":
             # `Self` only NESTED in the arguments of other types
             ig, iw = "<G>", (" where G: ::core::marker::Copy + Only<::core::option::Option<Self>>, ::std::vec::Vec<Self>: ::core::marker::Sized, "
@@ -391,6 +394,8 @@ def implop_module(idx, op, base, rhs_self, want_bin, want_assign, base_is_assign
         impl = ("impl%s ::core::ops::%s<%s> for %s%s { type Output = %s; fn %s(self, rhs: %s) -> %s { ::dx_support::log(\"call\".to_string()); "
                 "%s(format!(\"base({},{})\", self.0, rhs.0)%s) } }" % (ig, op, rhs_txt, refty(L, bl == "r"), iw2, out_txt, fn, rhs_txt, L, ctor, mk2))
     only = ("    pub trait Only<U: ?::core::marker::Sized> {}\n    impl<%sG> Only<%sLT<G>> for G {}" % (("'x, ", "&'x ") if (bl == "r" and not base_is_assign) else ("", ""))) if generic else ""
+    if generic == "group":
+        only = "    pub trait OnlyG {}\n    impl<G> OnlyG for (LT<G>, u8) {} impl<G> OnlyG for [LT<G>; 1] {}"
     if generic == "nested":
         only = "    pub trait Only<U: ?::core::marker::Sized> {}\n    impl<G> Only<::core::option::Option<LT<G>>> for G {}"
     pj = ("    pub trait Pj { type O; }\n    impl%s Pj for %sLT { type O = LT; }" % (("<'x>", "&'x ") if bl == "r" else ("", ""))) if proj else ""
@@ -1068,3 +1073,33 @@ def c12_special_module(idx, spec, entry):
         body = "format!(\"{{\\\"id\\\":IDX,\\\"nvals\\\":0,\\\"diff\\\":\\\"\\\"}}\\n\")"
     lines.append("    pub fn run() -> String {\n        %s\n    }\n}" % body.replace("IDX", str(idx)))
     return "\n".join(lines)
+
+
+# user impls that are unusual but legal; (tag, derive_ex arguments, items, statements that use the user's own and the derived forms)
+IMPL_SPECIALS = [
+    ("named_lt_unsized_rhs", "Add, AddAssign",
+     "#[derive(Clone)] pub struct X(pub usize);\n@HEAD@ impl<'a> ::core::ops::Add<&'a str> for X { type Output = X; fn add(self, r: &'a str) -> X { X(self.0 + r.len()) } }",
+     "let a = X(1) + \"ab\"; let b = &a + \"c\"; let mut c = b.clone(); c += \"d\"; assert_eq!(c.0, 5);"),
+    ("named_lt_output_borrows", "Sub",
+     "#[derive(Clone)] pub struct N(pub u8); pub struct Pair<'a>(pub &'a N, pub &'a N);\n@HEAD@ impl<'a> ::core::ops::Sub<&'a N> for &'a N { type Output = Pair<'a>; fn sub(self, r: &'a N) -> Pair<'a> { Pair(self, r) } }",
+     "let (n1, n2) = (N(1), N(2)); let p = &n1 - &n2; assert_eq!((p.0).0 + (p.1).0, 3);"),
+    ("named_lt_other_operand_carries_it", "Add",
+     "#[derive(Clone)] pub struct Step(pub u8); #[derive(Clone)] pub struct Cursor<'a>(pub &'a Step, pub u8);\n"
+     "@HEAD@ impl<'a> ::core::ops::Add<&'a Step> for Cursor<'a> { type Output = Cursor<'a>; fn add(self, r: &'a Step) -> Cursor<'a> { Cursor(r, self.1 + 1) } }",
+     "let (s1, s2) = (Step(1), Step(2)); let c = Cursor(&s1, 0) + &s2; let d = &c + &s2; assert_eq!(d.1, 2);"),
+    ("named_lt_slice_rhs", "BitOr",
+     "#[derive(Clone)] pub struct V<T>(pub ::std::vec::Vec<T>);\n@HEAD@ impl<'a, T: ::core::clone::Clone> ::core::ops::BitOr<&'a [T]> for &'a V<T> { type Output = V<T>; fn bitor(self, r: &'a [T]) -> V<T> { let mut v = self.0.clone(); v.extend_from_slice(r); V(v) } }",
+     "let v = V(vec![1u8]); let xs = [2u8, 3]; let w = &v | &xs[..]; assert_eq!(w.0.len(), 3);"),
+    ("rhs_tuple_of_self", "Add",
+     "#[derive(Clone)] pub struct Y(pub u8);\n@HEAD@ impl ::core::ops::Add<(Self, u8)> for Y { type Output = Self; fn add(self, r: (Self, u8)) -> Self { Y(self.0 + (r.0).0 + r.1) } }",
+     "let a = Y(1) + (Y(2), 3); let b = &a + (Y(1), 1); let c = &b + &(Y(0), 0); let d = b + &(Y(0), 1); assert_eq!((a.0, c.0, d.0), (6, 8, 9));"),
+    ("output_array_of_self", "Mul",
+     "#[derive(Clone)] pub struct Z(pub u8);\n@HEAD@ impl ::core::ops::Mul<u8> for &Z { type Output = [Z; 2]; fn mul(self, r: u8) -> [Z; 2] { [Z(self.0), Z(r)] } }\n"
+     "impl<'q> ::core::ops::Mul<u8> for &'q mut Z { type Output = u8; fn mul(self, r: u8) -> u8 { r } }",
+     "let z = Z(4); let a = &z * 2u8; let b = z.clone() * 3u8; let c = z * &5u8; assert_eq!((a[1].0, b[1].0, c[1].0), (2, 3, 5));"),
+]
+
+
+def impl_special_program(spec):
+    tag, attr, items, body = spec
+    return ("#![allow(dead_code, unused)]\n" + items.replace("@HEAD@", "#[::derive_ex::derive_ex(%s)]" % attr) + "\nfn main() { %s }\n" % body)
